@@ -152,8 +152,12 @@ CHECKS["C20"] = dict(
 
 CHECKS["C14"] = dict(
     text="Proved for EVERY identifier (any characters, any mix of quotes, any length): the XPath expression built by xpath_literal is well formed and "
-    "evaluates to exactly that identifier (literal_total), hence two different identifiers never match each other's predicate (literal_injective). "
-    "Correspondence: utils.xpath_literal vs the Lean function, and lxml's evaluation of the expression vs the Lean evaluator. Oracle: 17 lookup entry points "
+    "evaluates to exactly that identifier (literal_total), hence two different identifiers never match each other's predicate (literal_injective); and the "
+    "lookup itself (selectByName: the predicate evaluated on the identifiers the document holds, first match) never ends in a query error, returns only an object "
+    "carrying exactly the identifier asked for, finds every stored identifier among any others, and finds nothing under a name nothing was stored under "
+    "(lookup_never_errors, lookup_returns_only_the_named, lookup_finds_the_stored, lookup_absent). "
+    "Correspondence: utils.xpath_literal vs the Lean function, lxml's evaluation of the expression vs the Lean evaluator, and which of the two stored objects each "
+    "lookup of each entry point returns vs selectByName (~8000 lookups per quick run). Oracle: 17 lookup entry points "
     "(tables, styles, bookmarks, reference marks point/range, frames, draw pages, variables, user fields, notes, annotations, links, manifest paths, "
     "user-defined metadata), two close identifiers each, in memory and after save + reload.",
     note="The XPath evaluation of Literal / concat(...) is libxml2's: modelled, validated against lxml on every identifier of the run. get_section takes no "
